@@ -28,7 +28,7 @@ type vfRec struct {
 func vfNewRec(path string) *vfRec {
 	f, err := os.Create(path)
 	if err != nil {
-		panic(err)
+		panic(fmt.Sprintf("vf: %v", err))
 	}
 	return &vfRec{w: bufio.NewWriterSize(f, 1<<20), f: f, origin: time.Now(), on: true}
 }
@@ -54,7 +54,7 @@ func (r *vfRec) emit(ev string, kv ...any) {
 	}
 	b, err := json.Marshal(m)
 	if err != nil {
-		panic(err)
+		panic(fmt.Sprintf("vf: %v", err))
 	}
 	r.w.Write(b)
 	r.w.WriteByte('\n')
@@ -70,7 +70,7 @@ func (r *vfRec) raw(m map[string]any) {
 	defer r.mu.Unlock()
 	b, err := json.Marshal(m)
 	if err != nil {
-		panic(err)
+		panic(fmt.Sprintf("vf: %v", err))
 	}
 	r.w.Write(b)
 	r.w.WriteByte('\n')
@@ -104,7 +104,7 @@ func vfEnvInt(k string, def int) int {
 func vfReadLines(path string) []map[string]any {
 	f, err := os.Open(path)
 	if err != nil {
-		panic(err)
+		panic(fmt.Sprintf("vf: %v", err))
 	}
 	defer f.Close()
 	var out []map[string]any
